@@ -29,6 +29,17 @@ class Case:
                 "notes": self.notes}
 
 
+def grid(c, *option_lists):
+    """Mixed-radix enumeration of the main discrete parameters on the case seed: consecutive seeds walk through every
+    combination, so a run with k >= product-of-sizes consecutive seeds covers the whole grid (the remaining parameters
+    and the data are random)."""
+    idx, out = c.seed, []
+    for opts in option_lists:
+        out.append(opts[idx % len(opts)])
+        idx //= len(opts)
+    return out
+
+
 def tokens(c, n_docs=None, alphabet=None, min_len=0, max_len=10):
     r = c.rng
     alphabet = alphabet or ALPHA[: r.randint(2, 6)]
@@ -162,7 +173,8 @@ def build(name, seed):
         c.exact = False
         c.rtol = 1e-5
     elif name == "NgramVectorizer":
-        c.params = {"ngram_size": r.choice([1, 2, 3, 3]), "ngram_behaviour": r.choice(["exact", "subgrams"])}
+        size, beh = grid(c, [3, 1, 2], ["subgrams", "exact"])
+        c.params = {"ngram_size": size, "ngram_behaviour": beh}
         if r.random() < 0.3:
             c.params["min_occurrences"] = 2
         if r.random() < 0.3:
@@ -175,8 +187,8 @@ def build(name, seed):
         c.X2 = tokens(c, alphabet=ALPHA[:4] + ["zz"]) + [[]] + short
         c.make = lambda: V.NgramVectorizer(**c.params)
     elif name == "SkipgramVectorizer":
-        c.params = {"window_radius": r.choice([1, 2, 3, 8]), "window_function": r.choice(["fixed", "variable"]),
-                    "kernel_function": r.choice(["flat", "harmonic", "geometric"])}
+        wf, kf = grid(c, ["fixed", "variable"], ["flat", "harmonic", "geometric"])
+        c.params = {"window_radius": r.choice([1, 2, 3, 8]), "window_function": wf, "kernel_function": kf}
         if r.random() < 0.3:
             c.params["min_occurrences"] = 2
         c.X = tokens(c, min_len=2) * (2 if c.params.get("min_occurrences") else 1)
@@ -203,7 +215,8 @@ def build(name, seed):
         c.X = strings(alpha) + ["abab" * 3]
         c.X2 = strings(alpha + "zé中") + ["", "a"]
         if name == "LZCompressionVectorizer":
-            c.params = {"max_dict_size": r.choice([2, 3, 5, 64, 65536]), "max_columns": r.choice([None, None, 2, 8, 65536]),
+            mds, mc = grid(c, [65536, 3], [None, 8])
+            c.params = {"max_dict_size": r.choice([mds, mds, 2, 5, 64]), "max_columns": r.choice([mc, mc, 2, 65536]) if mc else None,
                         "random_state": r.choice([None, 0, 7])}
             if c.params["max_columns"] is not None and c.params["random_state"] is None:
                 c.params["random_state"] = 3     # an unseeded hash differs between two fits by design
@@ -211,7 +224,7 @@ def build(name, seed):
             c.make = lambda: V.LZCompressionVectorizer(**c.params)
         else:
             c.params = {"max_vocab_size": r.choice([2, 3, 5, 20, 10000]), "min_token_occurrence": r.choice([1, 2, 3]),
-                        "return_type": r.choice(["matrix", "sequences", "tokens"]),
+                        "return_type": grid(c, ["matrix", "sequences", "tokens"])[0],
                         "max_char_code": r.choice([None, None, 127, 65535])}
             if c.params["max_char_code"] is None:
                 c.params.pop("max_char_code")
@@ -223,8 +236,8 @@ def build(name, seed):
         c.X = seqs(0, 10, min_len=2)
         c.X2 = seqs(-5, 15) + [np.array([0.0]), np.array([1e6, -1e6])]
         if name == "HistogramVectorizer":
-            c.params = {"n_components": r.choice([2, 5, 20]), "strategy": r.choice(["uniform", "quantile"]),
-                        "append_outlier_bins": r.random() < 0.5}
+            strat, outl = grid(c, ["uniform", "quantile"], [False, True])
+            c.params = {"n_components": r.choice([2, 5, 20]), "strategy": strat, "append_outlier_bins": outl}
             if r.random() < 0.4:
                 c.params["absolute_range"] = (r.choice([-1.0, 0.0]), r.choice([10.0, 12.0]))
             c.make = lambda: V.HistogramVectorizer(**c.params)
@@ -257,17 +270,19 @@ def build(name, seed):
         if name == "WassersteinVectorizer":
             ref = r.randint(2, 4)
             c.params = {"metric": metric, "reference_size": ref, "n_components": min(n, ref * d),
-                        "random_state": r.randint(0, 100), "memory_size": r.choice(["2G", "0.3k", "1k", "4k"]),
-                        "method": r.choice(["LOT_exact", "LOT_exact", "LOT_sinkhorn"])}
-            c.params["input_method"] = r.choice(["spmatrix", "spmatrix", "lil"]) if c.params["method"] == "LOT_exact" else "spmatrix"
+                        "random_state": r.randint(0, 100)}
+            (meth, inp), mem = grid(c, [("LOT_exact", "spmatrix"), ("LOT_exact", "lil"), ("LOT_sinkhorn", "spmatrix")],
+                                    ["2G", "0.3k", "1k"])
+            c.params.update({"memory_size": mem, "method": meth, "input_method": inp})
             c.tr_kw = {"vectors": vecs}
             c.make = lambda: V.WassersteinVectorizer(**c.params)
             c.rtol = 1e-5
         elif name == "SinkhornVectorizer":
             ref = r.randint(2, 4)
             c.params = {"metric": metric, "reference_size": ref, "n_components": min(n, ref * d),
-                        "random_state": r.randint(0, 100), "memory_size": r.choice(["2G", "0.3k", "0.5k", "1k"]),
-                        "chunk_size": r.choice([32, 1, 2, 3])}
+                        "random_state": r.randint(0, 100)}
+            mem, ch = grid(c, ["0.3k", "2G", "0.5k"], [32, 2, 1])
+            c.params.update({"memory_size": mem, "chunk_size": ch})
             c.tr_kw = {"vectors": vecs}
             c.make = lambda: V.SinkhornVectorizer(**c.params)
             c.rtol = 1e-5
